@@ -29,6 +29,20 @@ def run(c, owner):
         kind, i = mism[0][1], mism[0][2]
         ev = events[i - 1] if 0 < i <= len(events) else None
         mine = (kind == "SYS/scan") if owner == "C01" else (kind in ("SYS/deliver", "SYS/return", "SYS/stop", "SYS/drop"))
+        if mine and owner == "C18":
+            # System.tla follows Poll.tla's request structure, which C18 does not fix.  The session is judged on the
+            # statement alone: delivery schedule by the property reading of Trace_Poll, payloads by Trace_Content.
+            import c18
+            before = len([m for m in c.mismatches if m.get("kind") == "violation"])
+            c18.property_reading(c, events, path + ".proj", {"module": "poll", "mode": "record-system"}, "C18/system/%s" % kind.split("/")[1],
+                                 "System.tla cannot explain event %d of a composition session: %s" % (i, json.dumps(ev)[:300]))
+            rc = vlib.tlc("Trace_Content", "Trace_Content", run_dir=c.run_dir, env={"TRACE": path}, coverage=False, workers=1, xss="1g", timeout=1800)
+            vlib.require_model_ok(rc, "Trace_Content")
+            for m in rc.tuples("MISMATCH")[:1]:
+                bad = events[m[2] - 1]
+                c.mismatches.append({"t": "mismatch", "kind": "violation", "sig": "C18/system/content", "detail": "delivered chunk (%s, %s) does not decode to what was uploaded" % (bad.get("vol"), bad.get("seq")),
+                                     "case": {"trace": path, "event_index": m[2], "event": {k: bad[k] for k in bad if k != "decoded"}}})
+            continue
         c.mismatches.append({"t": "mismatch", "kind": "violation" if mine else "drift", "sig": "%s/system/%s" % (owner, kind.split("/")[1]),
                              "detail": "System.tla cannot explain event %d of a composition session: %s" % (i, json.dumps(ev)[:300]),
                              "case": {"trace": path, "event_index": i, "event": ev}})
